@@ -255,6 +255,9 @@ func CoerceOut(s *model.Schema, typeName string, v interface{}, fl Flags) OutRes
 		default:
 			return fail()
 		}
+		if y := tt.UTC().Year(); y < 0 || y > 9999 {
+			return fail() // RFC 3339 has four digits for the year: such an instant has no representation
+		}
 		return OutResult{OK: true, Value: TimeNear{T: tt.UTC()}}
 	}
 	return fail()
